@@ -1212,11 +1212,15 @@ class Forced:
 THEOREMS = [
     "C16.program_ok", "C16.locked_unique", "C16.locked_gap_free", "C16.locked_in_order", "C16.par_ids",
     "C16.par_total", "C16.genSeq_ok", "C16.format_ok", "C16.format_injective", "C16.header_test_ok",
-    "C16.caller_id", "C16.new_allocates_ok", "C16.new_fresh_counter", "C16.constructors_share",
+    "C16.caller_id", "C16.new_allocates_ok", "C16.new_fresh_counter", "C16.reachable_wf",
+    "C16.new_fresh_counter_reachable", "C16.constructors_share",
     "C16.derived_shares", "C16.program_fuel", "C16.request_auto", "C16.test_covers", "C16.no_other_writer",
     "C16.hdr_init_ok", "C16.request_spec", "C16.auth_chain_keeps", "C16.request_supplied_id",
     "C16.request_caller_id", "C16.request_auto_sent", "C16.par_world", "C16.par_link", "C16.parCore_total",
-    "C16.outcome_keeps_number", "C16.request_cases", "C16.history_ids_distinct", "C16.history_from_scratch",
+    "C16.request_cases",
+    "C16.test_is_idName", "C16.add_adapter_spec", "C16.derived_inherits_adapters", "C16.request_supplied_value",
+    "C16.request_id_adapter", "C16.added_id_adapter_request",
+    "C16.history_ids_distinct", "C16.history_from_scratch",
 ]
 
 
@@ -1363,6 +1367,8 @@ class _Real:
         self.extra_impls = []
         self.dicts, self.dict_orig = [], []
         self.id_values = []    # per connection: ids the caller's adapters of the chain may supply
+        self.maybe_values = []  # per connection: ids of adapters attached to an ancestor AFTER this connection was derived
+        self.parent = []       # per connection: the connection it was derived from (None for a base)
         self.counter_attr, self.conn_attr, _ = _names()
 
     def canon(self, fam, v):
@@ -1391,6 +1397,8 @@ class _Real:
         wrap_locks(c.conn_impl)
         self.fams.append({"impl": c.conn_impl, "cp_line": cp, "ids": ids})
         self.id_values.append([])
+        self.maybe_values.append([])
+        self.parent.append(None)
         self.conns.append((c, len(self.fams) - 1))
         return len(self.conns) - 1
 
@@ -1433,8 +1441,49 @@ class _Real:
             self.extra_impls.append(d.conn_impl)
         if kind not in ID_KINDS and kind != "respfail":
             self.id_values.append(list(self.id_values[c]))
+        self.maybe_values.append(list(self.maybe_values[c]))
+        self.parent.append(c)
         self.conns.append((d, fam))
         return len(self.conns) - 1
+
+    def make_adapter(self, kind, spec):
+        """an adapter object of the caller's: id-propagating (always / only if the request has no id), one of the
+        package's authenticating adapters, the path prefix adapter; -> (adapter, id it may supply or None)"""
+        ch = self.ch
+        if kind in ID_KINDS:
+            value = dec_str(spec.split(":", 1)[1])
+            polite = kind == "idpolite"
+
+            class IdAdapter(ch.RequestAdapter):
+                def process_req_args(self, req_args):
+                    if polite and any(h.lower() == "x-request-id" for h in req_args.headers):
+                        return
+                    req_args.headers["X-Request-ID"] = value
+            return IdAdapter(), value
+        if kind == "bauth":
+            return ch.BAuthConn.Adapter(*AUTH_ARGS["bauth"]), None
+        if kind == "token":
+            return ch.TokenAuthConn.Adapter(*AUTH_ARGS["token"]), None
+        if kind == "client":
+            return ch.ClientAuthConn.Adapter(*AUTH_ARGS["client"]), None
+        return ch.RequestAdapterAddPathPrefix("/api"), None
+
+    def add_adapter(self, c, kind, spec):
+        """conn.add_adapter(<adapter>) on an existing connection.  The id of an id-supplying adapter is from now on
+        supplied by the caller for requests through this connection (and through connections derived from it
+        later: wrap() copies id_values); connections derived from it EARLIER may or may not see the adapter -
+        the property does not say - so for them the id is only something that may legitimately be sent."""
+        conn, _ = self.conns[c]
+        ad, value = self.make_adapter(kind, spec)
+        conn.add_adapter(ad)
+        if value is not None:
+            self.id_values[c] = self.id_values[c] + [value]
+            for k in range(len(self.conns)):
+                p = self.parent[k]
+                while p is not None and p != c:
+                    p = self.parent[p]
+                if p == c and k != c:
+                    self.maybe_values[k] = self.maybe_values[k] + [value]
 
     def new_dict(self, pairs):
         self.dicts.append(dict(pairs))
@@ -1562,6 +1611,12 @@ def _run_lines(case):
                         replies.append("err IndexError")
                     else:
                         replies.append("ok %d" % w.wrap(int(tok[1]), tok[2], tok[3] if len(tok) > 3 else "none"))
+                elif tok[0] == "addad":     # conn.add_adapter(...) on a connection that exists (and may have been used)
+                    if int(tok[1]) >= len(w.conns):
+                        replies.append("err IndexError")
+                    else:
+                        w.add_adapter(int(tok[1]), tok[2], tok[3] if len(tok) > 3 else "none")
+                        replies.append("ok")
                 elif tok[0] == "log":       # DEBUG logging effective for the module's logger (records go nowhere)
                     import logging
                     lg = logging.getLogger("ak.conn_http")
@@ -1587,7 +1642,7 @@ def _run_lines(case):
                         got = [w.canon(fam, v) for v in got]
                         sent = got[0] if got else "<nothing sent>"
                         d.update(fam=fam, supplied=[v for k, v in pairs if _is_id_name(k)] + w.id_values[c], sent=sent,
-                                 resent=got[1:])
+                                 resent=got[1:], maybe=list(w.maybe_values[c]))
                         after = "".join(" again " + _show(v) for v in got[1:])     # the same request handed over again
                         if tok[2].startswith("#"):     # the caller's object after the call
                             after = " dict=" + enc_hdrs([(k, w.canon(fam, _val(v))) for k, v in hdrs.items()])
@@ -1605,7 +1660,7 @@ def _run_lines(case):
                         for _ in range(n):
                             w.send(c, None)
                         got = [w.canon(fam, v) for v in cap.take()]
-                        d.update(fam=fam, sent=got, n=n, supplied=list(w.id_values[c]))
+                        d.update(fam=fam, sent=got, n=n, supplied=list(w.id_values[c]), maybe=list(w.maybe_values[c]))
                         replies.append("ok %s %s" % (_show(got[0]), _show(got[-1])) if got else "ok none none")
                 elif tok[0] in ("par", "parw", "parraw"):
                     replies.append(_run_par(w, cap, tok, d, gen_code))
@@ -1664,7 +1719,7 @@ def _run_par(w, cap, tok, d, gen_code):
         extra.append([p[1:] for p in per])
     d.update(fam=fam, status=status, steps=list(f.steps),
              threads=[[{"supplied": [v for kk, v in pairs if _is_id_name(kk)] + w.id_values[rc],
-                        "sent": out[k][j], "resent": extra[k][j]}
+                        "maybe": list(w.maybe_values[rc]), "sent": out[k][j], "resent": extra[k][j]}
                        for j, (rc, _hdrs, pairs) in enumerate(t)] for k, t in enumerate(threads)])
     errs = [e for e in f.exc if e is not None]
     if errs:
@@ -1701,7 +1756,13 @@ def oracle(case, replies):
       * their sequence numbers continue without gap or repeat (k such requests -> k consecutive
         numbers; concurrent ones: exactly the next k numbers in some order, increasing per thread);
       * a request that brings an id under 'X-Request-ID' in any capitalisation is sent with that id
-        and takes no number.
+        and takes no number.  "Brings an id" = the caller put it into the request: in the headers argument,
+        or through an adapter of the caller's in the chain of the connection object the request is made
+        through - whether the adapter was given to a constructor, came with the parent the connection was
+        derived from, or was attached with add_adapter() (before or after the first requests).  An id of an
+        adapter attached to an ancestor AFTER the connection was derived may or may not be used (the
+        property does not say whether such an adapter reaches existing derived connections): if it is what
+        was sent the request counts as one that brought its id, otherwise as one that did not.
     Nothing here looks at the Lean model."""
     details = _LAST.get(tuple(case["lines"]))
     if details is None:
@@ -1735,19 +1796,22 @@ def oracle(case, replies):
             continue
         where = "line %d (%s)" % (n, d["kind"])
         if d["kind"] == "req":         # every time the request reached the opener is a send of its own
-            groups = [[{"supplied": d["supplied"], "sent": v}] for v in [d["sent"]] + list(d.get("resent", []))]
+            groups = [[{"supplied": d["supplied"], "maybe": d.get("maybe", []), "sent": v}]
+                      for v in [d["sent"]] + list(d.get("resent", []))]
         elif d["kind"] == "burst":
             if len(d["sent"]) != d["n"]:
                 return "missing-request: %s sent %d of %d requests" % (where, len(d["sent"]), d["n"])
-            groups = [[{"supplied": d.get("supplied", []), "sent": v}] for v in d["sent"]]
+            groups = [[{"supplied": d.get("supplied", []), "maybe": d.get("maybe", []), "sent": v}] for v in d["sent"]]
         else:
             groups = None
         if groups is not None:            # sequential requests, in order
             for g in groups:
                 r = g[0]
                 if r["supplied"]:
-                    if r["sent"] not in r["supplied"]:
+                    if r["sent"] not in r["supplied"] + r["maybe"]:
                         return "caller-id: %s supplied %r, sent %r" % (where, r["supplied"], r["sent"])
+                    continue
+                if r["sent"] in r["maybe"]:
                     continue
                 msg = auto(d["fam"], r["sent"], where, st)
                 if msg:
@@ -1770,8 +1834,10 @@ def oracle(case, replies):
             last = None
             for r in [dict(r0, sent=v) for r0 in t for v in [r0["sent"]] + list(r0.get("resent", []))]:
                 if r["supplied"]:
-                    if r["sent"] not in r["supplied"]:
+                    if r["sent"] not in r["supplied"] + r.get("maybe", []):
                         return "caller-id: %s thread %d supplied %r, sent %r" % (where, k, r["supplied"], r["sent"])
+                    continue
+                if r["sent"] in r.get("maybe", []):
                     continue
                 msg = auto(d["fam"], r["sent"], where + " thread %d" % k, st)
                 if msg:
@@ -1871,10 +1937,37 @@ def wrap_line(parent, kind, value=None):
     return "wrap %d %s %s" % (parent, kind, "none" if a is None else "auth:" + enc_str(a))
 
 
-def _prelude(rng, lines, nfam_max=3, p_dicts=0.4):
-    """new/wrap/dict lines; returns ({family: (ids, [connection indices])}, number of caller dicts)"""
+ADD_KINDS = ["idset", "idpolite", "prefix", "bauth", "token", "client"]
+
+
+def addad_line(c, kind, value=None):
+    """conn.add_adapter(<adapter>) on connection c: an id-propagating adapter of the caller's (idset / idpolite),
+    the package's path prefix adapter, or one of the package's authenticating adapters"""
+    if kind in ID_KINDS:
+        return "addad %d %s %s:%s" % (c, kind, ID_KINDS[kind], enc_str(value or "Zadded"))
+    a = auth_value(kind)
+    return "addad %d %s %s" % (c, kind, "none" if a is None else "auth:" + enc_str(a))
+
+
+def _rand_addad(rng, c, auth):
+    """an add_adapter line for connection c; auth[c] (an authenticating adapter is in its chain) is kept up to date -
+    a second authenticating adapter is refused by the adapters themselves (left to the malformed stream)"""
+    x = rng.random()
+    if x < 0.55:
+        return addad_line(c, rng.choice(sorted(ID_KINDS)), _rand_value(rng))
+    if x < 0.75 or auth.get(c):
+        return addad_line(c, "prefix")
+    auth[c] = True
+    return addad_line(c, rng.choice(["bauth", "token", "client"]))
+
+
+def _prelude(rng, lines, nfam_max=3, p_dicts=0.4, p_add=0.07):
+    """new/wrap/addad/dict lines; returns ({family: (ids, [connection indices])}, number of caller dicts,
+    {connection: has an authenticating adapter}).  add_adapter calls come before and after the derivation of
+    further connections from the connection they are made on."""
     fams = {}
     nconn = 0
+    auth_all = {}
     for f in range(rng.randrange(1, nfam_max + 1)):
         ids = 1 if f == 0 or rng.random() < 0.7 else 0
         form = rng.choice(["str", "str", "slash", "list", "dict"])
@@ -1887,6 +1980,8 @@ def _prelude(rng, lines, nfam_max=3, p_dicts=0.4):
         auth = {nconn: False}          # two authenticating layers are rejected by the adapters themselves
         nconn += 1
         for _ in range(rng.choice([0, 1, 1, 2, 3])):
+            if rng.random() < p_add:
+                lines.append(_rand_addad(rng, rng.choice(mine), auth))
             parent = rng.choice(mine)
             kind = rng.choice(["plain", "prefix"] if auth[parent] else KINDS)
             if rng.random() < 0.12:
@@ -1895,6 +1990,9 @@ def _prelude(rng, lines, nfam_max=3, p_dicts=0.4):
             auth[nconn] = auth[parent] or kind in ("bauth", "token", "client")
             mine.append(nconn)
             nconn += 1
+        if rng.random() < p_add:
+            lines.append(_rand_addad(rng, rng.choice(mine), auth))
+        auth_all.update(auth)
         fams[f] = (ids, mine)
     ndict = 0
     if rng.random() < p_dicts:             # header dicts the caller keeps and passes to several requests
@@ -1904,7 +2002,7 @@ def _prelude(rng, lines, nfam_max=3, p_dicts=0.4):
                 [kv for kv in rng.sample(OTHER, rng.randrange(1, 3)) if kv[0] != "Authorization"]
             lines.append("dict " + enc_hdrs(pairs))
             ndict += 1
-    return fams, ndict
+    return fams, ndict, auth_all
 
 
 def _src(rng, ndict, p_none=0.55):
@@ -2018,6 +2116,13 @@ def corpus():
                           wrap_line(1, "bauth"), "req 0 _", "req 1 _", "req 2 _", "req 0 _", "req 3 _ post",
                           "req 2 %s" % enc_hdrs([("x-request-id", "Zown")]), "req 1 %s" % enc_hdrs([("x-request-id", "Zown")]),
                           "par 0 1@_+0@_|2@_+0@_ 0*4,1*8", "req 0 _"], "meta": {"kind": "corpus-id-adapters"}})
+    # adapters attached with add_adapter(): to a used connection, before and after deriving connections from it
+    out.append({"lines": ["new %s 1" % x, wrap_line(0, "plain"), "req 0 _", addad_line(0, "idpolite", "Zin1"),
+                          wrap_line(0, "bauth"), "req 0 _", "req 2 _ post", "req 1 _", addad_line(1, "idset", "Zin2"),
+                          "req 1 _", "req 1 %s" % enc_hdrs([("x-request-id", "Zown")]), "req 0 %s" % enc_hdrs([("X-Request-ID", "Zown")]),
+                          addad_line(2, "prefix"), "req 2 _", "par 0 0@_+1@_|2@_+1@_ 0*4,1*8",
+                          "new %s 1" % enc_str("ffff"), addad_line(3, "token"), "req 3 _", "req 3 _", "req 1 _"],
+                "meta": {"kind": "corpus-add-adapter"}})
     # one caller dict passed to many requests, through several connections of the family, also concurrently
     out.append({"lines": ["new %s 1" % x, wrap_line(0, "token"), "dict " + enc_hdrs([("Accept", "*/*")]),
                           "req 0 #0", "req 0 #0 post", "req 1 #0", "par 0 0@#0+1@#0|1@#0|0@#0 0*4,1*9,2*2", "req 1 #0 put",
@@ -2054,15 +2159,19 @@ def gen_cases(rng, tier):
     # sequential scenarios
     for _ in range(1200 if quick else 20000):
         lines = []
-        fams, ndict = _prelude(rng, lines)
+        fams, ndict, auth = _prelude(rng, lines)
         allc = [c for _, (ids, cs) in fams.items() for c in cs]
+        added = False
         for _ in range(rng.randrange(3, 25)):
             lines.append(_req_line(rng, allc, ndict=ndict))
             if rng.random() < 0.03:
                 lines.append("burst %d %d" % (rng.choice(allc), rng.randrange(1, 40)))
+            if rng.random() < 0.012:         # add_adapter on a connection that has been used
+                lines.append(_rand_addad(rng, rng.choice(allc), auth))
+                added = True
         if rng.random() < 0.12:
             lines.insert(0, "log debug")
-        yield {"lines": lines, "meta": {"kind": "sequential" + ("-dicts" if ndict else "")}}
+        yield {"lines": lines, "meta": {"kind": "sequential" + ("-dicts" if ndict else "") + ("-addad" if added else "")}}
     # malformed stream: connections / dicts that do not exist, an Authorization header of the caller's or two
     # authenticating layers (the adapters refuse both with AssertionError, no id is taken)
     for _ in range(80 if quick else 1500):
@@ -2081,6 +2190,10 @@ def gen_cases(rng, tier):
         if rng.random() < 0.3:
             lines.append("wrap %d plain none" % (n + 1))
             lines.append("par %d 0@_|0@_ 0*3" % (n + 2))
+        if rng.random() < 0.3:             # add_adapter: no such connection / a second authenticating adapter
+            lines.append(addad_line(n + rng.randrange(3) if rng.random() < 0.4 else rng.randrange(n),
+                                    rng.choice(ADD_KINDS), "Zlate"))
+            lines.append("req %d _" % rng.randrange(n))
         lines.append("req 0 _")
         yield {"lines": lines, "meta": {"kind": "malformed"}}
     # answers that cannot be processed (through a connection whose response adapter may reject them), then more requests
@@ -2096,10 +2209,37 @@ def gen_cases(rng, tier):
             fail = " " + rng.choice(kinds) if rng.random() < 0.45 else ""
             lines.append("req %d %s %s%s" % (c, enc_hdrs(_rand_headers(rng, 0.8)), rng.choice(METHODS), fail))
         yield {"lines": lines, "meta": {"kind": "answer-not-processed"}}
+    # adapters attached with add_adapter(): on a base or a derived connection, before / after requests, before /
+    # after further connections are derived from it; requests through all of them, sequential and concurrent
+    for n in range(90 if quick else 3000):
+        lines = ["new %s 1 %s" % (enc_str(rng.choice(CPS)), rng.choice(["str", "list", "dict", "slash"]))]
+        auth = {0: False}
+
+        def derive():
+            parent = rng.randrange(len(auth))
+            kind = rng.choice(["plain", "prefix"] if auth[parent] else KINDS)
+            if rng.random() < 0.1:
+                kind = rng.choice(sorted(ID_KINDS))
+            auth[len(auth)] = auth[parent] or kind in ("bauth", "token", "client")
+            return wrap_line(parent, kind, _rand_value(rng))
+        for _ in range(rng.choice([0, 1, 2])):
+            lines.append(derive())
+        for _ in range(rng.randrange(2, 6)):
+            x = rng.random()
+            if x < 0.4:
+                lines.append(_rand_addad(rng, rng.randrange(len(auth)), auth))
+            elif x < 0.6:
+                lines.append(derive())
+            for _ in range(rng.randrange(1, 4)):
+                lines.append(_req_line(rng, list(range(len(auth))), 0.8, p_fail=0.05))
+        if n % 3 == 0:
+            lines.append(_par_line(rng, list(range(len(auth))), rng.choice(SCHED_KINDS), L, A, R))
+            lines.append("req 0 _")
+        yield {"lines": lines, "meta": {"kind": "add-adapter"}}
     # forced interleavings; every third scenario starts them on a connection that has not been used yet
     for n in range(800 if quick else 20000):
         lines = []
-        fams, ndict = _prelude(rng, lines)
+        fams, ndict, _auth = _prelude(rng, lines)
         f = rng.choice(list(fams))
         ids, conns = fams[f]
         allc = [c for _, (_, cs) in fams.items() for c in cs]
@@ -2176,6 +2316,15 @@ def search_cases(rng, tier):
     for kind in sorted(ID_KINDS):
         yield {"lines": ["new %s 1" % x, wrap_line(0, kind, "Zad"), "req 0 _", "req 1 _", "req 0 _", "req 1 _ post", "req 0 _"],
                "meta": {"kind": "search-id-adapter"}}
+    # 2b'+. ... attached with add_adapter() instead of a constructor: before any request / after some, on the base /
+    #       on a derived connection, with a connection derived afterwards
+    for kind in ADD_KINDS:
+        for on in (0, 1):
+            for early in (True, False):
+                lines = ["new %s 1" % x, wrap_line(0, "plain")]
+                lines += [addad_line(on, kind, "Zad")] if early else ["req 0 _", "req 1 _", addad_line(on, kind, "Zad")]
+                lines += [wrap_line(on, "prefix"), "req 0 _", "req 1 _", "req 2 _ post", "req %d _" % on, "req 0 _", "req 1 _"]
+                yield {"lines": lines, "meta": {"kind": "search-add-adapter"}}
     # 2b''. DEBUG logging effective
     yield {"lines": ["log debug", "new %s 1" % x, wrap_line(0, "bauth"), "req 0 _", "req 1 _ post",
                      "req 0 %s" % enc_hdrs([("x-request-id", "Zown")]), "par 0 0@_|1@_ 0*5", "req 0 _"],
@@ -2222,7 +2371,7 @@ def _refs(line):
     """(connection indices, dict indices) a line refers to"""
     t = line.split()
     conns, dicts = set(), set()
-    if t[0] in ("wrap", "burst"):
+    if t[0] in ("wrap", "burst", "addad"):
         conns.add(int(t[1]))
     elif t[0] == "req":
         conns.add(int(t[1]))
@@ -2249,7 +2398,7 @@ def shrink(case):
                 and not (which == 0 and len(made) == 1):
             yield {"lines": lines[:made[-1]] + lines[made[-1] + 1:], "meta": meta}
     for i in range(len(lines) - 1, -1, -1):
-        if lines[i].split()[0] in ("req", "burst", "par", "parw", "parraw", "log"):
+        if lines[i].split()[0] in ("req", "burst", "par", "parw", "parraw", "log", "addad"):
             yield {"lines": lines[:i] + lines[i + 1:], "meta": meta}
     for i, l in enumerate(lines):
         tok = l.split()
@@ -2289,6 +2438,7 @@ def nontrivial(case, replies):
 def tags(case, replies):
     yield case.get("meta", {}).get("kind", "?")
     dicts, used, parent_kind = [], {}, {}
+    requested, has_child, added_to = set(), set(), set()
     seen_addr = set()
     nconn = 0
     for l, r in zip(case["lines"], replies):
@@ -2305,6 +2455,9 @@ def tags(case, replies):
             yield "new:addr=" + (t[4] if len(t) > 4 else "h") + (":again" if (t[4] if len(t) > 4 else "h") in seen_addr else "")
             seen_addr.add(t[4] if len(t) > 4 else "h")
         elif t[0] == "req":
+            requested.add(int(t[1]))
+            if int(t[1]) in added_to:
+                yield "req:through-added-adapter"
             ref = t[2].startswith("#")
             pairs = dicts[int(t[2][1:])] if ref and int(t[2][1:]) < len(dicts) else [] if ref else dec_hdrs(t[2])
             if ref:
@@ -2329,8 +2482,18 @@ def tags(case, replies):
                 yield "par:caller-dict"
             if "!" in t[2]:
                 yield "par:opener-fails"
+        elif t[0] == "addad":
+            c = int(t[1])
+            yield "addad:%s-on-%s" % (t[2], parent_kind.get(c, "?")) + ("" if r == "ok" else ":" + r.replace(" ", ":"))
+            if r == "ok":
+                yield "addad:" + ("after-requests" if c in requested else "before-requests") + \
+                    (":has-children" if c in has_child else "")
+                added_to.add(c)
         elif t[0] == "wrap":
             p = int(t[1])
+            has_child.add(p)
+            if p in added_to:
+                yield "wrap:over-connection-with-added-adapter"
             yield "wrap:%s-over-%s" % (t[2], parent_kind.get(p, "?"))
             parent_kind[nconn] = t[2]
             nconn += 1
@@ -2347,6 +2510,10 @@ RULE = ("sequential scenarios (1-3 independent connection families, half of them
         "effective for the module's logger, answers (200) whose processing fails after the request went out "
         "(body not JSON / not UTF-8, a rejecting response adapter; raw_response=True as the control), "
         "bursts across 9999->10000), "
+        "adapters attached with add_adapter() (id-propagating 'always' / 'only if the request has no id', path prefix, the three "
+        "authenticating adapters; on a base or a derived connection of every kind, before or after its first requests, before or "
+        "after further connections are derived from it; ~7 % of the connections of the ordinary scenarios plus a dedicated stream, "
+        "requests through every connection of the family afterwards, sequential and concurrent), "
         "forced interleavings of 2-4 real threads (a quarter of them raw _thread threads unknown to `threading`) x 0-3 requests inside the real _generate_request_id (random runs, "
         "round robin, everybody stopped inside the locked section / in the prologue of its first call, whole-call "
         "blocks, stop positions grid; every third scenario on a connection that has never been used), "
@@ -2380,16 +2547,25 @@ LEVEL_TEXT = ("Proved in Lean for every program of the WellLocked shape, any num
               "Obligations re-decided from the source on every run: program_ok, format_ok, header_test_ok, "
               "hdr_init_ok, constructors_share, new_allocates_ok (a connection made from an address always gets "
               "a new implementation object - no pooling per server; new_fresh_counter: it counts from 0 on its own "
-              "and nothing that existed changes), no_other_writer (nothing a request reaches except "
+              "and nothing that existed changes; its well-formedness hypothesis is proved for every world reachable by a "
+              "history of operations - reachable_wf - and new_fresh_counter_reachable states it without hypothesis), no_other_writer (nothing a request reaches except "
               "_generate_request_id assigns counter / lock / connection part: a request that fails in the opener "
               "keeps its number, and the logging helpers do not modify the request they log), program_fuel. request_supplied_id: an id present after the adapters ran (the "
               "caller's header or one put there by an adapter of the caller's) is sent and takes no number. "
+              "request_supplied_value / request_id_adapter: with an id-supplying adapter of the caller's ANYWHERE in the "
+              "chain of the connection object (constructor argument, inherited from the parent, or attached with "
+              "add_adapter() at any moment - add_adapter_spec: appended to that connection's list only, nothing "
+              "else changes; derived_inherits_adapters: a connection derived later copies the list) every successful "
+              "request sends one of the supplied ids (the caller's id headers or the ids of the chain's id adapters - "
+              "the very set the oracle accepts) and no counter moves; added_id_adapter_request = add_adapter() then a request. "
               "format_injective. History level (history_ids_distinct / history_from_scratch): over ANY list of "
-              "operations (new connections, derived connections of any class, caller dicts, sequential requests "
+              "operations (new connections, derived connections of any class, add_adapter() calls, caller dicts, sequential requests "
               "with or without own id / body, concurrent batches under any schedule) no implementation object ever "
               "sends the same generated id twice and every sent generated id renders a number below its counter; "
-              "sequential requests carry their outcome (answered / opener raised / answer not processed): "
-              "outcome_keeps_number - the number a sent request took stays taken. "
+              "sequential requests carry their outcome (answered / opener raised / answer not processed); that "
+              "the number a sent request took stays taken when the opener raises or the answer cannot be processed is a "
+              "MODELLING DECISION (the model has no step that gives a number back), not a theorem: it rests on the "
+              "translator's no_other_writer flag and on the tie (failing requests followed by further ones, id by id). "
               "par_link: World.par (what the driver calls) = adapters, then parCore (what par_world is about); "
               "parCore_total: parCore cannot fail on well-formed input (its AssertionError branch is unreachable). "
               "model = code: sequential scenarios "
@@ -2407,7 +2583,12 @@ LEVEL_NOTE = ("Only _generate_request_id is interleaved at bytecode granularity 
               "connection are exhaustive). Hand-modelled around generated constants: the order of the steps of "
               "do_request, that the dict of the request arguments is the one handed to urllib, the Authorization / "
               "Content-Type names; adapters: the authenticating ones, the path prefix and two id-propagating adapters "
-              "of the harness are modelled, others are not; concurrent requests are modelled without body and with copy semantics only; header names "
+              "of the harness are modelled (given to a constructor or attached with add_adapter()), others are not - in particular "
+              "adapters with state that changes between requests; an id supplied by an adapter of the caller's counts as "
+              "'supplied by the caller' (the property's mechanism: the id is attached only when none is present after the "
+              "adapters ran); whether an adapter attached to a connection reaches connections derived from it EARLIER is "
+              "not part of the property (the oracle accepts both; the model follows the code: it does not); "
+              "that add_adapter appends to the list do_request iterates is hand-modelled (no generated constant: the tie and the seeds cover it); concurrent requests are modelled without body and with copy semantics only; header names "
               "are ASCII; that the lock object exists before the first call is established by the translator "
               "(it refuses a lock that is not a plain attribute read) and by first-call schedules in the tie.")
 TECHNIQUE = ("Lean 4 invariant proof over all schedules of a bytecode-extracted instruction list + heap model of "
